@@ -235,7 +235,11 @@ class DataSaveable:
             data = self._data_with_axis(with_axis)
             io.savemat(file, {"data":data})
         else:
-            io.savemat(file, {"data":self.data})
+            # Matlab files know only two-dimensional arrays; the number of 
+            # dimensions is stored so that one-dimensional data can be 
+            # restored with their original shape
+            io.savemat(file, {"data":self.data, 
+                              "data_ndim":numpy.ndim(self.data)})
 
     
     def _loadMatlab(self, file, with_axis=None):
@@ -243,7 +247,11 @@ class DataSaveable:
         
         """
         self.set_data_writable()
-        _data = io.loadmat(file)["data"]
+        content = io.loadmat(file)
+        _data = content["data"]
+        if "data_ndim" in content:
+            if int(numpy.squeeze(content["data_ndim"])) == 1:
+                _data = _data.reshape(-1)
         self.data = self._extract_data_with_axis(_data, with_axis)
         self.set_data_protected()
 
